@@ -152,13 +152,19 @@ def run(chk):
                for e, val in hv.guards(n))
   chk.ob('C02-R3', ok, None, "aggregated_vars collects exactly the fields with an 'aggregation' value",
          'aggregated fields are not recognised: they become GROUP BY keys', fi=hs)
-  # modes handled by AsSql
+  # modes handled by AsSql: tests of GroupBySpecBy() (directly, or of a local
+  # holding its result) against a constant
+  def spec_test(e):
+    if isinstance(e, ast.Compare) and len(e.ops) == 1 and isinstance(e.ops[0], ast.Eq) and \
+        const_str(e.comparators[0]):
+      l = a.expand(e.left)
+      if isinstance(l, ast.Call) and call_tail(l) == 'GroupBySpecBy':
+        return const_str(e.comparators[0])
+    return None
   handled = set()
   for x in walk_local(a.fi.node):
-    if isinstance(x, ast.Compare) and isinstance(x.left, ast.Call) and \
-        call_tail(x.left) == 'GroupBySpecBy' and isinstance(x.ops[0], ast.Eq) and \
-        const_str(x.comparators[0]):
-      handled.add(const_str(x.comparators[0]))
+    if spec_test(x):
+      handled.add(spec_test(x))
   if len(handled) < 2:
     raise AnalysisError('AsSql: GroupBySpecBy dispatch not recognised')
   for engine, cls in sorted(templates.dialect_classes(repo).items()):
@@ -168,23 +174,22 @@ def run(chk):
     chk.ob('C02-R3', val in handled, None, '%s.GroupBySpecBy() = %r is handled by AsSql' % (cls, val),
            'AsSql handles %s only: internal assertion for every distinct rule '
            'on %s' % (sorted(handled), engine), fi=fi)
-  # each mode emits over the distinct vars only
+  # each mode emits over the distinct vars only: the joined sequence ranges
+  # over the select keys that are distinct vars (read through local names)
+  n_modes = 0
   for n in a.cfg.stmt_nodes():
     st = a.cfg.stmt[n]
-    if isinstance(st, ast.AugAssign) and isinstance(st.value, ast.Call) and \
+    if isinstance(st, (ast.AugAssign, ast.Assign, ast.Return)) and isinstance(st.value, ast.Call) and \
         call_tail(st.value) == 'join':
-      modes = [const_str(e.comparators[0]) for e, val in a.guards(n)
-               if val and isinstance(e, ast.Compare) and isinstance(e.left, ast.Call)
-               and call_tail(e.left) == 'GroupBySpecBy']
+      modes = [spec_test(e) for e, val in a.guards(n) if val and spec_test(e)]
       if modes:
-        chk.ob('C02-R3', 'ordered_distinct_vars' in norm(st.value), None,
-               "GROUP BY mode '%s' ranges over the distinct vars" % modes[-1],
+        n_modes += 1
+        text = norm(a.expand(st.value), 3000)
+        chk.ob('C02-R3', 'self.distinct_vars' in text and 'self.select' in text, None,
+               "GROUP BY mode '%s' ranges over the select keys that are distinct vars" % modes[-1],
                'mode %s groups by %s' % (modes[-1], norm(st.value, 80)), fi=a.fi, node=st)
-  odv = a.assigned_from('ordered_distinct_vars')
-  ok = len(odv) == 1 and isinstance(odv[0], ast.ListComp) and \
-      'self.distinct_vars' in norm(odv[0]) and 'self.select' in norm(odv[0])
-  chk.ob('C02-R3', ok, None, 'ordered_distinct_vars = select keys that are distinct vars',
-         'GROUP BY columns are %s' % (norm(odv[0], 80) if odv else '?'), fi=a.fi)
+  if n_modes < 2:
+    raise AnalysisError('AsSql: GROUP BY emission per mode not recognised')
 
   chk.rule('C02-R4', 'aggregation operators: + and ++ map to built-ins that '
            'exist; every constructor of an aggregation node builds the key set '
